@@ -1,9 +1,9 @@
 import Driver.Proto
-namespace Driver
+namespace Driver.C11
 open Scrapli
 
 /-- line-protocol handler for property C11 (arguments after the leading `c11` token) -/
 def handleC11 : List String → String
   | _ => "bad-op"
 
-end Driver
+end Driver.C11
